@@ -28,16 +28,18 @@ META = {
                   'test" use of TLC, not a behavioural model: the state machine is only the stream log of the live '
                   'server.  Decides the envelope framing; protobuf decoding itself is trusted (exercised with valid, '
                   'invalid and exact-size payloads).  Bounds: quick len in 0..17+{24,25,28,29}, 37 HeaderLen values, '
-                  '1 filling; thorough all 256 HeaderLen values, lens up to 44, 3 fillings.  Internal RPC handlers '
-                  'beyond their Unmarshal* call are not driven.',
+                  '1 filling; thorough all 256 HeaderLen values, lens up to 44, 3 fillings.  Internal RPC subjects '
+                  '(propagate, server info, partition status, notification, replication / leader-offset request) are fed '
+                  'the same byte classes plus well-formed requests with missing sub-messages; the Raft join subject is not '
+                  '(a join request legitimately changes the cluster).',
     'design_ref': 'DESIGN.md section 6/C14',
 }
 
 TIERS = {
     'quick': dict(mc='MC_Envelope.cfg', trace='Trace_Envelope.cfg', sim='Sim_Envelope.cfg', fills=1, rt=40, maxN=40,
-                  sims=150, depth=10),
+                  sims=100, depth=10),
     'thorough': dict(mc='MC_Envelope_thorough.cfg', trace='Trace_Envelope_thorough.cfg', sim='Sim_Envelope.cfg',
-                     fills=3, rt=400, maxN=120, sims=1500, depth=12),
+                     fills=3, rt=400, maxN=120, sims=600, depth=12),
 }
 
 
@@ -180,7 +182,7 @@ def run_server(rep, d, behaviours, tracecfg, stats):
         if len(mine) != it['step'] + 1:  # Open + one line per completed step
             raise core.Inconclusive('process died outside a pending step: %s' % out[-3000:])
         stored = mine[-1]['st']['stored']
-        a = 'ReadBack' if it.get('a') == 'ReadBack' else 'PublishRaw'
+        a = it.get('a', 'PublishRaw')
         obs = {'a': a, 'k': 'Crash', 'same': False}
         if a == 'ReadBack':
             obs['got'] = []
@@ -197,10 +199,13 @@ def run_server(rep, d, behaviours, tracecfg, stats):
     by_id = {b['id']: b for b in behaviours}
 
     def rp(e, j):
-        cls = cls_of(e['args']['i']) if e['a'] == 'PublishRaw' else '-'
+        cls = cls_of(e['args']['i']) if e['a'] in ('PublishRaw', 'Internal') else '-'
+        if e['a'] == 'Internal':
+            cls = '%s:%s%s' % (e['args']['h'], cls, (':shape%d' % e['args']['shape']) if cls == 'valid' and e['args']['pbOK'] else '')
         return cls, {'kind': 'server', 'behaviours': [by_id[e['t']]]}
     judge(rep, trace, tracecfg, rp, stats)
     stats['server_crashes'] = crashes
+    stats['internal'] = sum(1 for e in out_lines if e['a'] == 'Internal')
     return sum(1 for e in out_lines if e['a'] == 'PublishRaw')
 
 
@@ -227,7 +232,7 @@ def run(rep, tier, seed, replay):
         return
 
     # 1. design check: the whole product on the transcription (+ publish sequences)
-    res = core.tlc_check('MC_Envelope.tla', T['mc'], timeout=2400, coverage=(tier == 'thorough'))
+    res = core.tlc_check('MC_Envelope.tla', T['mc'], timeout=2400)   # -coverage 1 was run by hand on MC_Envelope.cfg: no zero counts (design_notes/C14.md)
     rep.add_design(T['mc'], res)
     if res['violated']:
         raise core.Inconclusive('the transcription itself violates %s - specification and code disagree, '
@@ -252,6 +257,8 @@ def run(rep, tier, seed, replay):
                 a = dict(st['last'])
                 if a['a'] == 'PublishRaw' and a['pbOK']:
                     a['shape'] = rng.choice(['plain', 'plain', 'hdrNoValue'])
+                if a['a'] == 'Internal' and a['h'] == 'propagate' and a['pbOK']:
+                    a['shape'] = rng.randrange(16)      # the simulation config draws 0..3; all 16 request shapes are used
                 steps.append(a)
             if steps:
                 if steps[-1]['a'] != 'ReadBack':
@@ -266,6 +273,7 @@ def run(rep, tier, seed, replay):
     rep.cov['round_trips'] = stats.get('roundtrips', 0)
     rep.cov['server_behaviours'] = len(behaviours)
     rep.cov['server_publishes'] = npub
+    rep.cov['server_internal_rpc_messages'] = stats.get('internal', 0)
     rep.cov['server_process_deaths'] = stats.get('server_crashes', 0)
     rep.cov['distinct_nontrivial'] = len(nt1 | nt2) + len({core.sha(b['steps']) for b in behaviours if nontrivial_beh(b)})
     rep.cov['rule'] = ('table: every (abstract input, pbOK) of the configured product, each executed on all 15 decoders '
